@@ -34,6 +34,8 @@ PRELUDE = "\n".join(
     # spelling 2 wraps every default / annotation in nested calls with keyword arguments that evaluate to the
     # wrapped object itself, so CPython still records the same defaults and annotations
     + ["def _w(v=None, **kw): return v", "def _a(t, **kw): return t"]
+    # spelling 3 puts operator expressions whose value depends on how they are parenthesised next to the default
+    + ["def _p(v, *k): return (v[0], *k)"]
 ) + "\n"
 
 
@@ -45,7 +47,8 @@ def render_params(case: dict, variant: int = 0) -> str:
         if ann:
             s += f": _a(T_{p['name']}, m=_w(v=_w(v=0)))" if variant == 2 else f": T_{p['name']}"
         if p["default"] != "none" and not star:
-            s += (" = " if ann else "=") + (f"_w(v=_w(v={p['default']}), **_w(v={{}}))" if variant == 2 else p["default"])
+            s += (" = " if ann else "=") + (f"_w(v=_w(v={p['default']}), **_w(v={{}}))" if variant == 2 else
+                                            f"_p({p['default']}, (2 ** 3) ** 2, -(1 + 2) * 3, (not 1) + 1, 2 ** -1, (1, 2)[0], (lambda: 7)())" if variant == 3 else p["default"])
         return s
 
     ref = case["ref"]
@@ -120,11 +123,13 @@ def _unwrap_defaults(gparams: list, ns: dict) -> list:
     return out
 
 
-def check_params(run: Run, griffe, cases: list, variants=(0, 1, 2)):
+def check_params(run: Run, griffe, cases: list, variants=(0, 1, 2, 3)):
     drift = 0
     for case in cases:
         for variant in variants:
             if variant == 2 and not (case["annotated"] or any(p["default"] != "none" for p in case["ref"])):
+                continue
+            if variant == 3 and not any(p["default"] != "none" for p in case["ref"]):
                 continue
             src, access = render_case(case, variant)
             sig = {"part": "params", "ctx": case["ctx"], "npos": case["npos"], "nargs": case["nargs"], "ndef": case["ndef"], "vararg": case["vararg"], "nkw": case["nkw"], "kwarg": case["kwarg"], "annotated": case["annotated"]}
@@ -153,7 +158,18 @@ def check_params(run: Run, griffe, cases: list, variants=(0, 1, 2)):
                     obj = mod[access]
                     gparams = project_griffe(griffe, obj.parameters)
                     text = None
-                if variant == 2:
+                if variant == 3 and case["ctx"] != "lambda":
+                    # the default expression Griffe reports evaluates to the very value CPython bound
+                    for gp, pp in zip(gparams, pysig.parameters.values()):
+                        if gp["default"] in ("none", "()", "{}") or pp.default is inspect.Parameter.empty:
+                            continue
+                        try:
+                            val = eval(gp["default"], dict(ns))  # noqa: S307
+                        except Exception as exc:  # noqa: BLE001
+                            val = repr(exc)
+                        if val != pp.default:
+                            run.violation(dict(sig, clause="default-value"), f"default of {gp['name']}: Griffe reports `{gp['default']}` = {val!r}, CPython bound {pp.default!r}", {"case": ident, "source": src})
+                if variant in (2, 3):
                     gparams = _unwrap_defaults(gparams, ns)
             except Exception as exc:  # noqa: BLE001
                 run.violation(dict(sig, clause="total"), f"visit raised {exc!r} on\n{src}", {"case": ident, "source": src})
@@ -165,7 +181,7 @@ def check_params(run: Run, griffe, cases: list, variants=(0, 1, 2)):
             # property: Griffe == reference (names, order, kinds, which have defaults, default expressions)
             if norm_variadic(strip(gparams)) != case["ref"]:
                 run.violation(dict(sig, clause="signature"), f"Griffe parameters {strip(gparams)} != CPython {case['ref']} for\n{src.replace(PRELUDE, '')}", {"case": ident, "source": src})
-            elif strip(gparams) != case["impl"] and variant != 2:
+            elif strip(gparams) != case["impl"] and variant not in (2, 3):
                 drift += 1
             if case["ctx"] != "lambda":
                 # required-ness as CPython binds them (non-variadic)
@@ -191,6 +207,8 @@ def check_params(run: Run, griffe, cases: list, variants=(0, 1, 2)):
                 try:
                     re_sig = inspect.signature(eval(text, dict(ns)))  # noqa: S307
                     re_py = [{"name": p.name, "kind": KIND_OF[p.kind], "default": "none" if p.default is inspect.Parameter.empty else p.default[0]} for p in re_sig.parameters.values()]
+                    if variant == 3 and [p.default for p in re_sig.parameters.values()] != [p.default for p in pysig.parameters.values()]:
+                        re_py = "defaults evaluate differently: " + repr([p.default for p in re_sig.parameters.values()])
                 except SyntaxError:
                     re_py = "SyntaxError"
                 if re_py != case["ref"]:
